@@ -83,6 +83,13 @@ def geodst_specs(quick):
                     for fine in ((1, 2) if (nrass == 1 or not quick) else (1,)):
                         out.append({"fmt": "geodst", "IGOM": igom, "NRASS": nrass, "NBS": nbs, "NBCS": nbcs, "NIBCS": nibcs,
                                     "NZWBB": nzwbb, "nc": list(nc), "fine": fine, "NREG": 2, "NZONE": 1 + (nbs > 0)})
+    # NREG and NZONE (they size three lists of the 5D record) on their own
+    for igom, nc in ((0, []), (1, [2]), (6, [2, 1]), (14, [1, 2, 2])):
+        for nreg, nzone in itertools.product((1, 3), (1, 2, 3)):
+            for nbs in (0, 2):
+                out.append({"fmt": "geodst", "IGOM": igom, "NRASS": nreg % 2, "NBS": nbs, "NBCS": 1, "NIBCS": 3, "NZWBB": 1, "nc": nc, "fine": 2, "NREG": nreg, "NZONE": nzone})
+    if True:  # one record beyond io.DEFAULT_BUFFER_SIZE fields (both tiers: cheap)
+        out.append({"fmt": "geodst", "big": True, "IGOM": 6, "NRASS": 1, "NBS": 2, "NBCS": 2, "NIBCS": 0, "NZWBB": 0, "nc": [95, 90], "fine": 1, "NREG": 2, "NZONE": 1})
     return out
 
 
@@ -194,6 +201,8 @@ def rtflux_specs(quick):
                     for nk in ((1,) if ndim == 2 else (1, 2)):
                         for nb in (1, 2, 3):
                             out.append({"fmt": "rtflux", "adjoint": adj, "NDIM": ndim, "NGROUP": ng, "NINTI": ni, "NINTJ": nj, "NINTK": nk, "NBLOK": nb})
+    # one record beyond io.DEFAULT_BUFFER_SIZE fields (writer buffering)
+    out.append({"fmt": "rtflux", "big": True, "adjoint": False, "NDIM": 2, "NGROUP": 1, "NINTI": 95, "NINTJ": 90, "NINTK": 1, "NBLOK": 1})
     return out
 
 
@@ -254,7 +263,10 @@ PWDINT_KEYS = "TIME POWER VOL NINTI NINTJ NINTK NCY NBLOK".split()
 
 def pwdint_specs(quick):
     d = (1, 2, 3)
-    return [{"fmt": "pwdint", "NINTI": ni, "NINTJ": nj, "NINTK": nk, "NBLOK": nb} for ni, nj, nk, nb in itertools.product(d, d, d if not quick else (1, 2), d)]
+    out = [{"fmt": "pwdint", "NINTI": ni, "NINTJ": nj, "NINTK": nk, "NBLOK": nb} for ni, nj, nk, nb in itertools.product(d, d, d if not quick else (1, 2), d)]
+    if True:  # one record beyond io.DEFAULT_BUFFER_SIZE fields (both tiers: cheap)
+        out.append({"fmt": "pwdint", "big": True, "NINTI": 95, "NINTJ": 90, "NINTK": 1, "NBLOK": 1})
+    return out
 
 
 def _pwdint_model(s, rot=0):
@@ -306,8 +318,11 @@ RZFLUX_KEYS = "TIME POWER VOL EFFK EIVS DKDS TNL TNA TNSL TNBL TNBAL TNCRA X1 X2
 
 def rzflux_specs(quick):
     d = (1, 2, 3)
-    return [{"fmt": "rzflux", "NZONE": nz, "NGROUP": ng, "NBLOK": nb, "ITPS": it}
-            for nz, ng, nb in itertools.product(d + (() if quick else (5,)), d, d + (() if quick else (4,))) for it in ((1,) if quick else (0, 1, 2, 3))]
+    out = [{"fmt": "rzflux", "NZONE": nz, "NGROUP": ng, "NBLOK": nb, "ITPS": it}
+           for nz, ng, nb in itertools.product(d + (() if quick else (5,)), d, d + (() if quick else (4,))) for it in ((1,) if quick else (0, 1, 2, 3))]
+    if True:  # one record beyond io.DEFAULT_BUFFER_SIZE fields (both tiers: cheap)
+        out.append({"fmt": "rzflux", "big": True, "NZONE": 95, "NGROUP": 90, "NBLOK": 1, "ITPS": 1})
+    return out
 
 
 def _rzflux_model(s, rot=0):
@@ -360,7 +375,8 @@ DIF3D_3D = "EPS1 EPS2 EPS3 EFFK FISMIN PSINRM POWIN SIGBAR EFFKQ EPSWP".split() 
 
 def dif3d_specs(quick):
     c = (0, 1, 3) if quick else (0, 1, 2, 3, 5)
-    return [{"fmt": "dif3d", "NUMORP": a, "NCMRZS": b} for a, b in itertools.product(c, c)]
+    # the last one: a record beyond io.DEFAULT_BUFFER_SIZE fields (writer buffering)
+    return [{"fmt": "dif3d", "NUMORP": a, "NCMRZS": b} for a, b in itertools.product(c, c)] + [{"fmt": "dif3d", "big": True, "NUMORP": 8200, "NCMRZS": 4100}]
 
 
 def _dif3d_model(s, rot=0):
@@ -427,11 +443,14 @@ def labels_specs(quick):
     c = (0, 1, 2)
     out = []
     for nz, nr in itertools.product((1, 2), (1, 2)):
-        for na, nraa in ((0, 0), (1, 1), (2, 2)) if quick else itertools.product(c, c):
+        for na, nraa in ((0, 0), (1, 2), (2, 1)) if quick else itertools.product(c, c):
             for h1, h2 in itertools.product(c, c):
                 for ns, nal in itertools.product(c, c):
                     out.append({"fmt": "labels", "numZones": nz, "numRegions": nr, "numAreas": na, "numRegionAreaAssignments": nraa,
                                 "numHalfHeightsDirection1": h1, "numHalfHeightsDirection2": h2, "numNuclideSets": ns, "numZoneAliases": nal})
+    if True:  # one record beyond io.DEFAULT_BUFFER_SIZE fields (both tiers: cheap)
+        out.append({"fmt": "labels", "big": True, "numZones": 8200, "numRegions": 3, "numAreas": 1, "numRegionAreaAssignments": 2,
+                    "numHalfHeightsDirection1": 1, "numHalfHeightsDirection2": 0, "numNuclideSets": 2, "numZoneAliases": 1})
     return out
 
 
@@ -509,22 +528,34 @@ NHFLUX_VAR = "npcbdy npcsym npcsec iwnhfl nMoms".split()
 
 
 def nhflux_specs(quick):
+    """Every count of the 1D record that sizes a later record is varied on its own: nintxy, nSurf
+    (2D pointers, 4D currents), the number of non-node lateral surfaces npcxy - nintxy*nSurf ("next":
+    rows of incoming currents in the 4D record), and for VARIANT npcbdy (external pointers in the 2D
+    record), npcsym, npcsec (symmetry/sector pointers), nMom, nMoms, nscoef, iwnhfl.  In a VARIANT
+    file next = npcbdy + npcsym + npcsec; "slack" adds a surface no count explains, so that the
+    two formulas armi has for "number of outer surfaces" disagree in both directions."""
     out = []
-    for adj in (False, True):
-        for variant in (False, True):
-            for ng, nz in itertools.product((1, 2), (1, 2)):
-                for nass, nsurf, next_ in ((1, 6, 6), (2, 6, 8), (1, 4, 0)) if quick else ((1, 6, 6), (2, 6, 8), (1, 4, 0), (3, 4, 2), (2, 3, 1)):
-                    for nmom in (1, 2) if quick else (1, 2, 5):
-                        for nscoef in (1, 2):
-                            if not variant:
-                                out.append({"fmt": "nhflux", "adjoint": adj, "variant": False, "ngroup": ng, "nintk": nz, "nintxy": nass, "nSurf": nsurf,
-                                            "next": next_, "nMom": nmom, "nscoef": nscoef})
-                                continue
+    geoms = ((1, 6, 6), (2, 6, 8), (1, 4, 0), (2, 3, 1)) if quick else ((1, 6, 6), (2, 6, 8), (1, 4, 0), (3, 4, 2), (2, 3, 1), (3, 2, 5))
+    for adj, ng, nz in [(False, 1, 1), (False, 2, 1), (False, 1, 2), (False, 2, 2), (True, 2, 1), (True, 2, 2)] + ([] if quick else [(True, 3, 1), (False, 3, 2)]):
+        for nass, nsurf, nbdy in geoms:
+            for nscoef in (1, 2):
+                for nmom in (1, 2) if quick else (1, 2, 5):
+                    out.append({"fmt": "nhflux", "adjoint": adj, "variant": False, "ngroup": ng, "nintk": nz, "nintxy": nass, "nSurf": nsurf,
+                                "next": nbdy, "nMom": nmom, "nscoef": nscoef})
+                for nmom, nmoms in ((1, 0), (2, 2), (1, 2)) if quick else ((1, 0), (2, 2), (1, 2), (5, 3), (2, 0)):
+                    for nsym, nsec in ((0, 0), (3, 0), (0, 2), (3, 1)):
+                        for slack in (0, 1, -1):
                             for iw in (0, 1):
-                                for nmoms in (0, 2):
-                                    for nsym in (0, 3):
-                                        out.append({"fmt": "nhflux", "adjoint": adj, "variant": True, "ngroup": ng, "nintk": nz, "nintxy": nass, "nSurf": nsurf,
-                                                    "next": next_, "nMom": nmom, "nscoef": nscoef, "iwnhfl": iw, "nMoms": nmoms, "npcsym": nsym, "npcsec": nsym // 3})
+                                if iw == 1 and (slack or nscoef == 2):
+                                    continue  # no current records: nothing depends on these
+                                nxt = nbdy + nsym + nsec + slack
+                                if nxt < 0 or (slack == -1 and nsym + nsec == 0):
+                                    continue
+                                out.append({"fmt": "nhflux", "adjoint": adj, "variant": True, "ngroup": ng, "nintk": nz, "nintxy": nass, "nSurf": nsurf,
+                                            "next": nxt, "npcbdy": nbdy, "nMom": nmom, "nscoef": nscoef, "iwnhfl": iw, "nMoms": nmoms, "npcsym": nsym, "npcsec": nsec})
+    if True:  # one record beyond io.DEFAULT_BUFFER_SIZE fields (both tiers: cheap)
+        out.append({"fmt": "nhflux", "big": True, "adjoint": False, "variant": True, "ngroup": 1, "nintk": 1, "nintxy": 1400, "nSurf": 6, "next": 40, "npcbdy": 30,
+                    "nMom": 1, "nscoef": 1, "iwnhfl": 0, "nMoms": 1, "npcsym": 6, "npcsec": 4})
     return out
 
 
@@ -535,7 +566,7 @@ def _nhflux_model(s, rot=0):
     md.update(ndim=3, ngroup=ng, nintk=nz, nSurf=ns, nMom=s["nMom"], nintxy=na, npcxy=na * ns + nx, nscoef=nc, effk=v.r(), power=v.r() * 1e6)
     keys = list(NHFLUX_KEYS)
     if s["variant"]:
-        md.update(npcbdy=nx, npcsym=s["npcsym"], npcsec=s["npcsec"], iwnhfl=s["iwnhfl"], nMoms=s["nMoms"])
+        md.update(npcbdy=s["npcbdy"], npcsym=s["npcsym"], npcsec=s["npcsec"], iwnhfl=s["iwnhfl"], nMoms=s["nMoms"])
         keys += NHFLUX_VAR + ["IDUM%02d" % e for e in range(1, 7)]
     else:
         keys += ["IDUM%02d" % e for e in range(1, 12)]
@@ -544,7 +575,8 @@ def _nhflux_model(s, rot=0):
             md[k] = v.i()
     m = {"md": md, "keys": keys, "label": "NAFLUX" if s["adjoint"] else "NHFLUX"}
     m["inptr"] = {(j, i): v.i() for i in range(na) for j in range(ns)}  # (surface, assembly)
-    m["extptr"] = v.ints(nx)
+    # external-surface pointers: Nodal has one per non-node surface, VARIANT one per npcbdy
+    m["extptr"] = v.ints(s["npcbdy"] if s["variant"] else nx)
     m["map"] = v.ints(na)
     npcsto = (s["npcsym"] + s["npcsec"]) if s["variant"] else 0
     m["outsym"], m["insym"] = v.ints(npcsto), v.ints(npcsto)
@@ -629,7 +661,8 @@ def nhflux_io(s):
 
 def fixsrc_specs(quick):
     d = (1, 2)
-    return [{"fmt": "fixsrc", "shape": list(sh)} for sh in itertools.product(d, d, d, d)] + ([] if quick else [{"fmt": "fixsrc", "shape": [3, 3, 2, 4]}])
+    return ([{"fmt": "fixsrc", "shape": list(sh)} for sh in itertools.product(d, d, d, d)] + ([] if quick else [{"fmt": "fixsrc", "shape": [3, 3, 2, 4]}])
+            + [{"fmt": "fixsrc", "big": True, "shape": [95, 90, 1, 1]}])
 
 
 def _fixsrc_model(s, rot=0):
